@@ -81,14 +81,14 @@ def component(nd, vol, parent=None):
     return new(Component, p=p, parent=parent, cached={})
 
 
-GEN = {"a": (0.0, 0.1), "b": (0.0, 0.1), "c": (0.0, 0.1), "V": (0.01, 500.0)}
+GEN = {"a": (0.0, 0.1), "b": (0.0, 0.1), "c": (0.0, 0.1), "V": (-200.0, 500.0)}
 
 
 @lemma(overrides=OV, stubs=ST, gen=GEN)
 def component_mass_is_density_times_volume(a: float, b: float, c: float, V: float):
     """Component.getMass (total, nuclide, element, list) = sum_i N_i A_i / K x V; getMasses / getNumberOfAtoms agree."""
     weights_positive()
-    assume(V > 0)
+    # no hypothesis on the volume: signed (a gap component has a negative one), zero
     comp = component({"A": a, "B": b, "C": c}, V)
     assert eq(comp.getVolume(), V)
     rho = (a * wt("A") + b * wt("B") + c * wt("C")) / K
@@ -128,7 +128,9 @@ def rho_of(nd, nucs):
 
 
 GEN3 = {"k": (1, 3), "a1": (0.0, 0.1), "b1": (0.0, 0.1), "b2": (0.0, 0.1), "c2": (0.0, 0.1), "a3": (0.0, 0.1), "b3": (0.0, 0.1), "c3": (0.0, 0.1),
-        "v1": (0.01, 500.0), "v2": (0.01, 500.0), "v3": (0.01, 500.0), "sf": [1.0, 2.0, 3.0]}
+        "v1": (-200.0, 500.0), "v2": (-200.0, 500.0), "v3": (-200.0, 500.0), "sf": [1.0, 2.0, 3.0, 4.0]}
+# volumes are SIGNED (a gap component has a negative area that compensates the overlap of its hot neighbours) and may be zero;
+# the only hypothesis on them is the one the specification expression itself needs: a non-zero divisor.
 
 
 @lemma(overrides=OV, stubs=ST, gen=GEN3)
@@ -136,7 +138,7 @@ def composite_mass_and_volume_are_sums_over_children(k: int, a1: float, b1: floa
     """Composite.getMass / getVolume over k = 1..3 real Component children: mass (total, nuclide, element, list) and volume
     are the sums of the children's; and equal sum_i rho_i V_i with the densityTools formula."""
     weights_positive()
-    assume(v1 > 0 and v2 > 0 and v3 > 0)
+    # no hypothesis on the volumes: signed (gap components), zero, any order
     k = choose(k, 1, 3)
     kids, nd, vol = three_children(k, a1, b1, v1, b2, c2, v2, a3, b3, c3, v3)
     o = composite(Composite, kids)
@@ -153,11 +155,12 @@ def composite_number_density_is_volume_weighted_mean(k: int, a1: float, b1: floa
     """Composite.getNumberDensity / getNuclideNumberDensities / _getNdensHelper / getNumberDensities / getNumberOfAtoms /
     getMasses / getMassFrac / density over k = 1..3 real Component children."""
     weights_positive()
-    assume(v1 > 0 and v2 > 0 and v3 > 0)
+    # (S) the only hypothesis on the SIGNED volumes: the divisor of the mean is not zero (assumed below, once `vol` is known)
     k = choose(k, 1, 3)
     kids, nd, vol = three_children(k, a1, b1, v1, b2, c2, v2, a3, b3, c3, v3)
     o = composite(Composite, kids)
     V = sum(vol)
+    assume(V != 0)
     mean = {n: sum(nd[i][n] * vol[i] for i in range(k)) / V for n in ("A", "B", "C", "D")}
     for n in ("A", "B", "C", "D"):
         assert eq(o.getNumberDensity(n), mean[n]), "number density = volume-weighted mean of the children's"
@@ -196,10 +199,11 @@ def composite_with_a_child_of_negative_volume_accounts_like_its_leaves(a1: float
 def composite_mass_is_density_times_volume(k: int, a1: float, b1: float, v1: float, b2: float, c2: float, v2: float, a3: float, b3: float, c3: float, v3: float):
     """ArmiObject.density x Composite.getVolume = Composite.getMass, k = 1..3 real Component children."""
     weights_positive()
-    assume(v1 > 0 and v2 > 0 and v3 > 0)
+    # (S) signed volumes; the total must not vanish (below): with V = 0 the mean density is undefined
     k = choose(k, 1, 3)
     kids, nd, vol = three_children(k, a1, b1, v1, b2, c2, v2, a3, b3, c3, v3)
     o = composite(Composite, kids)
+    assume(sum(vol) != 0)
     assert eq(o.density() * o.getVolume(), o.getMass()), "mass = density x volume at the parent's level"
     assert eq(o.density() * sum(vol), sum(rho_of(nd[i], ["A", "B", "C"]) * vol[i] for i in range(k)))
 
@@ -208,10 +212,11 @@ def composite_mass_is_density_times_volume(k: int, a1: float, b1: float, v1: flo
 def composite_getMasses_agrees_with_getMass(k: int, a1: float, b1: float, v1: float, b2: float, c2: float, v2: float, a3: float, b3: float, c3: float, v3: float):
     """ArmiObject.getMasses()[n] = getMass(n) for every nuclide present; the total is their sum.  k = 1..3 children."""
     weights_positive()
-    assume(v1 > 0 and v2 > 0 and v3 > 0)
     k = choose(k, 1, 3)
     kids, nd, vol = three_children(k, a1, b1, v1, b2, c2, v2, a3, b3, c3, v3)
     o = composite(Composite, kids)
+    # (S) signed volumes, zero allowed; getMasses goes through the mean density, undefined for a total volume of zero
+    assume(sum(vol) != 0)
     present = sorted(set(n for c in kids for n in c.getNuclides()))
     ms = o.getMasses()
     assert sorted(ms.keys()) == present
@@ -224,10 +229,12 @@ def composite_getMasses_agrees_with_getMass(k: int, a1: float, b1: float, v1: fl
 def composite_mass_fractions_are_mass_ratios(k: int, a1: float, b1: float, v1: float, b2: float, c2: float, v2: float, a3: float, b3: float, c3: float, v3: float):
     """ArmiObject.getMassFrac / getMassFracs: fraction of n (nuclide or element) = mass of n / total mass.  k = 1..3 children."""
     weights_positive()
-    assume(v1 > 0 and v2 > 0 and v3 > 0)
     k = choose(k, 1, 3)
     kids, nd, vol = three_children(k, a1, b1, v1, b2, c2, v2, a3, b3, c3, v3)
     o = composite(Composite, kids)
+    # (S) signed volumes, zero allowed; the fractions go through the mean density, undefined for a total volume of zero
+    # (and the total MASS must not vanish for a fraction to exist: `if total != 0`)
+    assume(sum(vol) != 0)
     present = sorted(set(n for c in kids for n in c.getNuclides()))
     mass = {n: sum(nd[i][n] * wt(n) / K * vol[i] for i in range(k)) for n in ("A", "B", "C")}
     total = mass["A"] + mass["B"] + mass["C"]
@@ -256,11 +263,12 @@ def block_volume_mass_and_atoms_are_reduced_by_the_symmetry_factor(k: int, sf: f
     """Block.getVolume, Composite.getMass, Component.getMass (of a child of a cut block), getNumberDensity, getNumberOfAtoms,
     density, getMasses on a Block with k = 1..3 real Component children and an ARBITRARY symmetry factor sf > 0."""
     weights_positive()
-    assume(v1 > 0 and v2 > 0 and v3 > 0 and sf > 0)
+    assume(sf > 0)  # (P) a symmetry factor is 1, 2, 3 or 4; volumes signed, total non-zero (S, below)
     k = choose(k, 1, 3)
     kids, nd, vol = three_children(k, a1, b1, v1, b2, c2, v2, a3, b3, c3, v3)
     b = composite(CutBlock, kids, sf=sf)
     V = sum(vol)
+    assume(V != 0)
     assert eq(b.getVolume() * sf, V), "block volume = sum of the children's volumes reduced by the symmetry factor"
     assert eq(b.getVolume() * sf, sum(c.getVolume() for c in kids))
     for sel, nucs in ((None, ["A", "B", "C"]), ("B", ["B"]), ("E", ["A", "B"]), (["C", "A"], ["A", "C"])):
@@ -274,17 +282,21 @@ def block_volume_mass_and_atoms_are_reduced_by_the_symmetry_factor(k: int, sf: f
         assert eq(b.getNumberDensity(n), mean), "number density = volume-weighted mean (the factor cancels)"
         assert eq(b.getNumberOfAtoms(n) * sf, sum(c.getNumberOfAtoms(n) for c in kids)), "atoms = children's atoms over the symmetry factor"
         assert eq(b.getNumberOfAtoms(n), mean * b.getVolume() / units.CM2_PER_BARN)
-    assert eq(b.density() * b.getVolume(), b.getMass()), "mass = density x volume at block level"
+    if V > 0:  # case split on the sign of the total volume: a hint for the nonlinear solver only, both branches assert the same
+        assert eq(b.density() * b.getVolume(), b.getMass()), "mass = density x volume at block level"
+    else:
+        assert eq(b.density() * b.getVolume(), b.getMass()), "mass = density x volume at block level (negative total volume)"
 
 
 @lemma(overrides=OV, stubs=ST, gen=GEN3)
 def block_getMasses_agrees_with_getMass(k: int, sf: float, a1: float, b1: float, v1: float, b2: float, c2: float, v2: float, a3: float, b3: float, c3: float, v3: float):
     """ArmiObject.getMasses on a cut Block: getMasses()[n] = getMass(n) = sum over the children.  k = 1..3 children."""
     weights_positive()
-    assume(v1 > 0 and v2 > 0 and v3 > 0 and sf > 0)
+    assume(sf > 0)  # (P) a symmetry factor is 1, 2, 3 or 4
     k = choose(k, 1, 3)
     kids, nd, vol = three_children(k, a1, b1, v1, b2, c2, v2, a3, b3, c3, v3)
     b = composite(CutBlock, kids, sf=sf)
+    assume(sum(vol) != 0)  # (S) signed volumes, zero allowed, total not zero (mean density)
     present = sorted(set(n for c in kids for n in c.getNuclides()))
     ms = b.getMasses()
     assert sorted(ms.keys()) == present
@@ -330,8 +342,8 @@ def nuclide_dict(n, a, b, c):
     return {"A": a, "B": b} if n == 2 else {"A": a, "B": b, "C": c}
 
 
-GENS = {"n": (2, 3), "a": (0.0, 0.1), "b": (0.0, 0.1), "c": (0.0, 0.1), "x": (0.0, 0.1), "y": (0.0, 0.1), "V": (0.01, 500.0), "T": (20.0, 600.0),
-        "f": (0.1, 3.0)}
+GENS = {"n": (2, 3), "a": (0.0, 0.1), "b": (0.0, 0.1), "c": (0.0, 0.1), "x": (0.0, 0.1), "y": (0.0, 0.1), "V": (-200.0, 500.0), "T": (20.0, 600.0),
+        "f": (-1.0, 3.0)}
 
 
 @lemma(overrides=OV, stubs=ST, gen=GENS)
@@ -339,8 +351,7 @@ def component_setNumberDensity_reads_back_and_leaves_the_rest(n: int, a: float, 
     """Component.setNumberDensity (through updateNumberDensities): the touched nuclide reads back the requested value, every
     other nuclide, the nuclide list and the volume are unchanged; a nuclide that was absent is created.  n = 2..3 nuclides."""
     weights_positive()
-    assume(V > 0)
-    n = choose(n, 2, 3)
+    n = choose(n, 2, 3)  # no hypothesis on the volume (signed, zero)
     comp = settable(nuclide_dict(n, a, b, c), V, T)
     old = {m: comp.getNumberDensity(m) for m in ("A", "B", "C", "D")}
     nucs = sorted(comp.getNuclides())
@@ -363,8 +374,7 @@ def component_setNumberDensity_reads_back_and_leaves_the_rest(n: int, a: float, 
 def component_update_and_set_number_densities(n: int, a: float, b: float, c: float, x: float, y: float, V: float, T: float):
     """Component.updateNumberDensities: listed nuclides read back, unlisted are unchanged;
     Component.setNumberDensities: listed nuclides read back, everything not listed reads zero.  n = 2..3 nuclides."""
-    assume(V > 0)
-    n = choose(n, 2, 3)
+    n = choose(n, 2, 3)  # no hypothesis on the volume (signed, zero)
     comp = settable(nuclide_dict(n, a, b, c), V, T)
     old = {m: comp.getNumberDensity(m) for m in ("A", "B", "C", "D")}
     req = {"A": x, "D": y}
@@ -385,8 +395,7 @@ def component_changeNDensByFactor_scales_every_nuclide(n: int, a: float, b: floa
     """Component.changeNDensByFactor / _changeOtherDensParamsByFactor: every nuclide reads back factor x old (nothing else
     appears), the detailed and pin density vectors follow, mass scales by the factor.  n = 2..3 nuclides."""
     weights_positive()
-    assume(V > 0)
-    n = choose(n, 2, 3)
+    n = choose(n, 2, 3)  # no hypothesis on the volume (signed, zero) nor on the factor (zero, negative)
     comp = settable(nuclide_dict(n, a, b, c), V, T, detailed=np.array([d1, d2]), pin=np.array([d2, d1]))
     old = {m: comp.getNumberDensity(m) for m in ("A", "B", "C", "D")}
     nucs = sorted(comp.getNuclides())
@@ -410,8 +419,15 @@ def two_children(k, a1, b1, v1, b2, c2, v2, T):
     return kids[:k]
 
 
-GENC = {"k": (1, 2), "a1": (0.0, 0.1), "b1": (0.0, 0.1), "b2": (0.0, 0.1), "c2": (0.0, 0.1), "v1": (0.01, 500.0), "v2": (0.01, 500.0),
-        "x": (0.0, 0.1), "f": (0.1, 3.0), "T": (20.0, 600.0), "sf": [1.0, 2.0, 3.0], "which": ["A", "B", "C"]}
+GENC = {"k": (1, 2), "a1": (0.0, 0.1), "b1": (0.0, 0.1), "b2": (0.0, 0.1), "c2": (0.0, 0.1), "v1": (-200.0, 500.0), "v2": (-200.0, 500.0),
+        "x": (0.0, 0.1), "f": (-1.0, 3.0), "T": (20.0, 600.0), "sf": [1.0, 2.0, 3.0, 4.0], "which": ["A", "B", "C"]}
+
+
+def spread_volumes(k, v1, v2):
+    """(S) the hypothesis of the de-homogenising setters on the SIGNED child volumes (a gap component has a negative one): the
+    total volume and the volume of the children that hold the touched nuclide (child 1 alone for A, child 2 alone for C, both
+    for B) are not zero - the setters divide the requested density by that volume fraction, so there is no answer otherwise."""
+    assume(v1 != 0 and (k == 1 or (v2 != 0 and v1 + v2 != 0)))
 
 
 def composite_setNumberDensity_contract(o, nuc, x):
@@ -431,8 +447,8 @@ def composite_setNumberDensity_contract(o, nuc, x):
 def composite_setNumberDensity_reads_back_at_the_same_level(k: int, a1: float, b1: float, v1: float, b2: float, c2: float, v2: float, x: float, T: float):
     """Composite.setNumberDensity / getChildrenWithNuclides / getVolumeFractions on a Composite with k = 1..2 real Component
     children, for a nuclide held by every child (B) and by one child only (A)."""
-    assume(v1 > 0 and v2 > 0)
     k = choose(k, 1, 2)
+    spread_volumes(k, v1, v2)
     o = composite(Composite, two_children(k, a1, b1, v1, b2, c2, v2, T))
     composite_setNumberDensity_contract(o, "B", x)
     composite_setNumberDensity_contract(o, "A", x + 1.0)
@@ -442,7 +458,8 @@ def composite_setNumberDensity_reads_back_at_the_same_level(k: int, a1: float, b
 def block_setNumberDensity_reads_back_at_the_same_level(sf: float, a1: float, b1: float, v1: float, b2: float, c2: float, v2: float, x: float, T: float):
     """the same on a cut Block (arbitrary symmetry factor) with two children, for the nuclide held by the second child only (C)
     and the shared one (B)"""
-    assume(v1 > 0 and v2 > 0 and sf > 0)
+    assume(sf > 0)  # (P) a symmetry factor is 1, 2, 3 or 4
+    spread_volumes(2, v1, v2)
     o = composite(CutBlock, two_children(2, a1, b1, v1, b2, c2, v2, T), sf=sf)
     composite_setNumberDensity_contract(o, "C", x)
     composite_setNumberDensity_contract(o, "B", x / 2.0)
@@ -452,8 +469,7 @@ def block_setNumberDensity_reads_back_at_the_same_level(sf: float, a1: float, b1
 def composite_refuses_to_create_a_nuclide_no_child_holds(k: int, a1: float, b1: float, v1: float, b2: float, c2: float, v2: float, x: float, T: float):
     """Composite.setNumberDensity of a nuclide none of the children holds: refused loudly (ValueError) with nothing changed,
     unless the requested value is zero (then nothing to do)."""
-    assume(v1 > 0 and v2 > 0)
-    k = choose(k, 1, 2)
+    k = choose(k, 1, 2)  # no hypothesis on the volumes: signed, zero, cancelling
     o = composite(Composite, two_children(k, a1, b1, v1, b2, c2, v2, T))
     old = {m: o.getNumberDensity(m) for m in ("A", "B", "C", "D")}
     try:
@@ -482,8 +498,8 @@ def composite_changeNDensByFactor_scales_every_nuclide(k: int, a1: float, b1: fl
     distribution over the children that hold each nuclide) on a Composite with k = 1..2 real Component children.
     Precondition (class invariant given through the parameter map): the object's parameter collection HAS detailedNDens and
     pinNDens (None or a vector) - real Block / Assembly / Core collections lack one of them: known findings F47 / F51 / F59."""
-    assume(v1 > 0 and v2 > 0)
     k = choose(k, 1, 2)
+    spread_volumes(k, v1, v2)
     o = composite(Composite, two_children(k, a1, b1, v1, b2, c2, v2, T))
     scaled_contract(o, f, ["A", "B"] if k == 1 else ["A", "B", "C"])
     assert o.p.detailedNDens is None and o.p.pinNDens is None
@@ -497,7 +513,8 @@ def composite_changeNDensByFactor_scales_every_nuclide(k: int, a1: float, b1: fl
 def block_changeNDensByFactor_scales_every_nuclide(sf: float, a1: float, b1: float, v1: float, b2: float, c2: float, v2: float, f: float, T: float):
     """the same on a cut Block (arbitrary symmetry factor) with two children; its mass scales by the factor"""
     weights_positive()
-    assume(v1 > 0 and v2 > 0 and sf > 0)
+    assume(sf > 0)  # (P)
+    spread_volumes(2, v1, v2)
     o = composite(CutBlock, two_children(2, a1, b1, v1, b2, c2, v2, T), sf=sf)
     m0 = o.getMass()
     mB = o.getMass("B")
@@ -509,8 +526,8 @@ def block_changeNDensByFactor_scales_every_nuclide(sf: float, a1: float, b1: flo
 def composite_update_and_set_number_densities(k: int, a1: float, b1: float, v1: float, b2: float, c2: float, v2: float, x: float, f: float, T: float):
     """Composite.updateNumberDensities: listed nuclides (held by all / one / NO child) read back at the same level, unlisted are
     unchanged; Composite.setNumberDensities: listed read back, everything not listed reads zero.  k = 1..2 children."""
-    assume(v1 > 0 and v2 > 0)
     k = choose(k, 1, 2)
+    spread_volumes(k, v1, v2)
     o = composite(Composite, two_children(k, a1, b1, v1, b2, c2, v2, T))
     old = {m: o.getNumberDensity(m) for m in ("A", "B", "C", "D")}
     o.updateNumberDensities({"B": x, "D": f})
@@ -634,11 +651,13 @@ class HeightBlock(Block):
     """a Block whose children need its height only (Block.getHeight is real: p.height)"""
 
 
-@lemma(gen={"area": (0.0, 50.0), "other": (0.0, 20.0), "h": (0.1, 100.0)})
+@lemma(gen={"area": (-10.0, 50.0), "other": (-10.0, 20.0), "h": [0.0, 0.1, 1.0, 25.0, 100.0]})
 def component_volume_is_area_times_block_height(area: float, other: float, h: float, void: bool):
     """Component.getVolume / _updateVolume / computeVolume / getArea (incl. the modArea correction) / clearCache: an
     uncached volume is cross-section x height of the block, is remembered, and is recomputed after clearCache."""
-    assume(h > 0)
+    # (P) a block height is not negative (ZERO allowed).  With h < 0 a solid of positive cross-section gets a negative volume and
+    # Component._checkNegativeVolume refuses it - an artefact of an ill-formed block, not a case of the property.
+    assume(h >= 0)
     blk = new(HeightBlock, name="b", _children=[], p=new(PMap, height=h), parent=None, cached={}, derivedMustUpdate=False)
     c = new(AreaShape, name="c", p=new(PMap, volume=None, modArea=None), parent=blk, cached={}, area=area, void=void, material="m")
     d = new(AreaShape, name="d", p=new(PMap, volume=None, modArea=(c, "sub")), parent=blk, cached={}, area=other, void=void, material="m")
@@ -669,7 +688,7 @@ def component_volume_is_area_times_block_height(area: float, other: float, h: fl
     assert not ok, "a 2-D component without a block has no volume: refused loudly"
 
 
-GEN2 = dict(GEN3, s1=[1.0, 2.0, 3.0], s2=[1.0, 2.0, 3.0], k=(1, 2))
+GEN2 = dict(GEN3, s1=[1.0, 2.0, 3.0, 4.0], s2=[1.0, 2.0, 3.0, 4.0], k=(1, 2))
 
 
 @lemma(overrides=OV, stubs=ST, gen=GEN2)
@@ -678,8 +697,10 @@ def assembly_of_cut_blocks_accounts_like_its_leaves(k: int, s1: float, s2: float
     Components, block 2 one.  Volume, mass (total / nuclide / element), number density and atoms at the top equal the sums
     over the blocks AND the naive walk over the leaves with each leaf volume reduced by its block's factor."""
     weights_positive()
-    assume(v1 > 0 and v2 > 0 and v3 > 0 and s1 > 0 and s2 > 0)
+    assume(s1 > 0 and s2 > 0)  # (P) symmetry factors are 1, 2, 3 or 4
     k = choose(k, 1, 2)
+    # (S) SIGNED leaf volumes; no block and not the assembly has a total volume of zero (the mean density divides by it)
+    assume(v1 + v2 != 0 and (k == 1 or (v3 != 0 and (v1 + v2) / s1 + v3 / s2 != 0)))
     kids, nd, vol = three_children(3, a1, b1, v1, b2, c2, v2, a3, b3, c3, v3)
     blocks = [composite(CutBlock, kids[:2], sf=s1), composite(CutBlock, kids[2:], sf=s2)][:k]
     asm = composite(Composite, blocks)
@@ -722,8 +743,8 @@ def mass_setters_read_back_on_component_and_composite(k: int, a1: float, b1: flo
     """ArmiObject.setMass / addMass / removeMass / addMasses (-> densityTools.calculateNumberDensity -> setNumberDensity) on
     an uncut Component and on a Composite with k = 1..2 Component children."""
     weights_positive()
-    assume(v1 > 0 and v2 > 0)
     k = choose(k, 1, 2)
+    spread_volumes(k, v1, v2)
     mass_setters_contract(settable({"A": a1, "B": b1}, v1, T), g, 1.0)
     mass_setters_contract(composite(Composite, two_children(k, a1, b1, v1, b2, c2, v2, T)), g, 1.0)
 
@@ -733,8 +754,9 @@ def mass_setters_read_back_on_a_cut_block(k: int, sf: float, a1: float, b1: floa
     """the same on a cut Block (arbitrary symmetry factor) with k = 1..2 Component children: the block's own mass reads back.
     (A component INSIDE a cut block does not read back: known findings F52-F56, F58.)"""
     weights_positive()
-    assume(v1 > 0 and v2 > 0 and sf > 0)
+    assume(sf > 0)  # (P)
     k = choose(k, 1, 2)
+    spread_volumes(k, v1, v2)
     mass_setters_contract(composite(CutBlock, two_children(k, a1, b1, v1, b2, c2, v2, T), sf=sf), g, sf)
 
 
@@ -757,19 +779,26 @@ def mass_fraction_contract(o, request, untouched):
     assert eq(sum(fr[n] for n in sorted(fr)), 1.0), "mass fractions sum to one"
 
 
-GENMF = dict(a=(0.001, 0.1), b=(0.001, 0.1), c=(0.001, 0.1), x=(0.01, 0.45), y=(0.01, 0.45), V=(0.01, 500.0), T=(20.0, 600.0))
+GENMF = dict(a=[0.0, 0.0, 0.02, 0.05, 0.1], b=[0.0, 0.0, 0.01, 0.03, 0.1], c=[0.0, 0.001, 0.04, 0.1], x=[0.0, 0.0, 0.1, 0.25, 0.45], y=[0.0, 0.0, 0.2, 0.33, 0.45],
+             V=(-200.0, 500.0), T=(20.0, 600.0))
 
 
-def mf_component(a, b, c, x, y, V, T):
-    """a Component holding A, B, C with symbolic positive densities (setMassFrac(s) is ArmiObject's, executed on it)"""
+def mf_component(a, b, c, x, y, V, T, untouched=("A", "B", "C")):
+    """a Component holding A, B, C with symbolic NON-NEGATIVE densities - a nuclide may be listed with density zero -
+    (setMassFrac(s) is ArmiObject's, executed on it).  Hypotheses: (P) densities are not negative, the requested fractions are
+    fractions (>= 0, ZERO included) that leave something for the rest (sum < 1; sum == 1 has its own lemma below), and the
+    nuclides the request does not name have some mass to fill that rest with (otherwise no composition satisfies the request).
+    No hypothesis on the volume (signed, zero): a component's densities do not depend on it."""
     weights_positive()
-    assume(V > 0 and a > 0 and b > 0 and c > 0 and x > 0 and y > 0 and x + y < 1)
-    return settable({"A": a, "B": b, "C": c}, V, T)
+    assume(a >= 0 and b >= 0 and c >= 0 and x >= 0 and y >= 0 and x + y < 1)
+    nd = {"A": a, "B": b, "C": c}
+    assume(sum(nd[n] * wt(n) for n in untouched) > 0)
+    return settable(nd, V, T)
 
 
 @lemma(overrides=OV, stubs=ST, gen=GENMF)
 def mass_fraction_of_a_present_nuclide_reads_back(a: float, b: float, c: float, x: float, y: float, V: float, T: float):
-    mass_fraction_contract(mf_component(a, b, c, x, y, V, T), {"A": x}, ["B", "C"])
+    mass_fraction_contract(mf_component(a, b, c, x, y, V, T, ["B", "C"]), {"A": x}, ["B", "C"])
 
 
 @lemma(overrides=OV, stubs=ST, gen=GENMF)
@@ -780,19 +809,20 @@ def mass_fraction_of_a_new_nuclide_reads_back(a: float, b: float, c: float, x: f
 
 @lemma(overrides=OV, stubs=ST, gen=GENMF)
 def mass_fractions_of_a_present_and_a_new_nuclide_read_back(a: float, b: float, c: float, x: float, y: float, V: float, T: float):
-    mass_fraction_contract(mf_component(a, b, c, x, y, V, T), {"A": x, "D": y}, ["B", "C"])
+    mass_fraction_contract(mf_component(a, b, c, x, y, V, T, ["B", "C"]), {"A": x, "D": y}, ["B", "C"])
 
 
 @lemma(overrides=OV, stubs=ST, gen=GENMF)
 def mass_fractions_of_two_present_nuclides_read_back(a: float, b: float, c: float, x: float, y: float, V: float, T: float):
-    mass_fraction_contract(mf_component(a, b, c, x, y, V, T), {"A": x, "B": y}, ["C"])
+    mass_fraction_contract(mf_component(a, b, c, x, y, V, T, ["C"]), {"A": x, "B": y}, ["C"])
 
 
-@lemma(overrides=OV, stubs=ST, gen=dict(a=(0.001, 0.1), b=(0.001, 0.1), x=(0.01, 0.9), V=(0.01, 500.0), T=(20.0, 600.0)))
+@lemma(overrides=OV, stubs=ST, gen=dict(a=[0.0, 0.01, 0.1], b=[0.0, 0.02, 0.1], x=[0.0, 0.0, 0.01, 0.5, 0.9], V=(-200.0, 500.0), T=(20.0, 600.0)))
 def setMassFrac_of_one_nuclide(a: float, b: float, x: float, V: float, T: float):
     """setMassFrac(name, x) = setMassFracs({name: x}); a zero-density object refuses"""
     weights_positive()
-    assume(V > 0 and a > 0 and b > 0 and 0 < x and x < 1)
+    # (P) densities not negative, some mass present, a fraction (zero included) below one; no hypothesis on the volume
+    assume(a >= 0 and b >= 0 and a * wt("A") + b * wt("B") > 0 and 0 <= x and x < 1)
     comp = settable({"A": a, "B": b}, V, T)
     rho0 = comp.density()
     comp.setMassFrac("D", x)
@@ -800,12 +830,13 @@ def setMassFrac_of_one_nuclide(a: float, b: float, x: float, V: float, T: float)
     assert eq(comp.getMassFrac("A") * b * wt("B"), comp.getMassFrac("B") * a * wt("A")), "A : B as before"
 
 
-@lemma(overrides=OV, stubs=ST, gen=dict(a=(0.001, 0.1), b=(0.001, 0.1), c=(0.001, 0.1), x=(0.01, 0.99), V=(0.01, 500.0), T=(20.0, 600.0)))
+@lemma(overrides=OV, stubs=ST, gen=dict(a=[0.0, 0.0, 0.01, 0.1], b=[0.0, 0.0, 0.02, 0.1], c=[0.0, 0.03, 0.1], x=[0.0, 0.0, 1.0, 1.0, 0.01, 0.5, 0.99], V=(-200.0, 500.0), T=(20.0, 600.0)))
 def mass_fractions_summing_to_one_leave_nothing_for_the_rest(a: float, b: float, c: float, x: float, V: float, T: float):
     """assigned fractions that sum to EXACTLY one (two nuclides, or one nuclide with fraction 1): they read back, every
     other nuclide ends with no mass, the total density is unchanged"""
     weights_positive()
-    assume(V > 0 and a > 0 and b > 0 and c > 0 and 0 < x and x < 1)
+    # (P) densities not negative, some mass present, fractions in [0, 1] (both ends included); no hypothesis on the volume
+    assume(a >= 0 and b >= 0 and c >= 0 and a * wt("A") + b * wt("B") + c * wt("C") > 0 and 0 <= x and x <= 1)
     comp = settable({"A": a, "B": b, "C": c}, V, T)
     mass_fraction_contract(comp, {"A": x, "B": 1.0 - x}, ["C"])
     assert eq(comp.getMassFrac("C"), 0.0) and eq(comp.getNumberDensity("C"), 0.0), "nothing is left for the unnamed nuclide"
